@@ -364,7 +364,7 @@ func genModule(r *base.Rand, nPairs int, startFeature int) *c05module {
 	m.fileQual = []map[string]string{
 		{"ifc": "ifc", "alt": "altname", "ifc2": "ifc2"}, // plain imports; package m5/yy declares name altname
 		{"ifc": "ii", "alt": "aa", "ifc2": "ifc2"},       // explicit aliases
-		{"ifc": "ifc", "alt": "altname", "ifc2": "ifc2"}, // plain again (used for unimported / missing cases)
+		{"ifc": "aa", "alt": "ii", "ifc2": "ifc2"},       // the same alias names as file 1, bound the other way round
 	}
 	for i := 0; i < nPairs; i++ {
 		f := c05features[(startFeature+i)%len(c05features)]
@@ -373,10 +373,10 @@ func genModule(r *base.Rand, nPairs int, startFeature int) *c05module {
 		m.pairs = append(m.pairs, p)
 	}
 	// annotation-level features on some plain pairs
-	annFeatures := []string{"unimported-qualifier", "missing-interface", "not-an-interface", "dir-name-qualifier", "blank-import"}
+	annFeatures := []string{"unimported-qualifier", "missing-interface", "not-an-interface", "dir-name-qualifier", "blank-import", "imported-only-by-sibling-file"}
 	k := 0
 	for _, p := range m.pairs {
-		if p.feature == "plain" && k < len(annFeatures) && p.ifacePkg != "impl" {
+		if p.feature == "plain" && p.ifacePkg != "impl" {
 			m.special[p.idx] = annFeatures[(k+startFeature)%len(annFeatures)]
 			k++
 		}
@@ -388,7 +388,7 @@ func genModule(r *base.Rand, nPairs int, startFeature int) *c05module {
 	implFiles := []*strings.Builder{{}, {}, {}, {}}
 	implFiles[0].WriteString("package impl\n\nimport (\n\t\"m5/ifc\"\n\tifc2 \"m5/v2/ifc\"\n\t\"m5/yy\"\n)\n\nvar _ ifc.ID\nvar _ altname.Item\nvar _ ifc2.Item\n\ntype Loc struct{}\n\ntype LocAlias = Loc\n\n")
 	implFiles[1].WriteString("package impl\n\nimport (\n\tii \"m5/ifc\"\n\tifc2 \"m5/v2/ifc\"\n\taa \"m5/yy\"\n)\n\nvar _ ii.ID\nvar _ aa.Item\nvar _ ifc2.Item\n\n")
-	implFiles[2].WriteString("package impl\n\nimport (\n\t\"m5/ifc\"\n\tifc2 \"m5/v2/ifc\"\n\t\"m5/yy\"\n)\n\nvar _ ifc.ID\nvar _ altname.Item\nvar _ ifc2.Item\n\n")
+	implFiles[2].WriteString("package impl\n\nimport (\n\taa \"m5/ifc\"\n\tifc2 \"m5/v2/ifc\"\n\tii \"m5/yy\"\n)\n\nvar _ aa.ID\nvar _ ii.Item\nvar _ ifc2.Item\n\n")
 	implFiles[3].WriteString("package impl\n\nimport _ \"m5/ifc\"\n\n") // blank import only
 	for _, p := range m.pairs {
 		// interface
@@ -436,8 +436,16 @@ func genModule(r *base.Rand, nPairs int, startFeature int) *c05module {
 		case "not-an-interface":
 			q, ann = tq["ifc"], "Item"
 		case "dir-name-qualifier":
-			if p.ifacePkg == "alt" && fi != 1 {
+			if p.ifacePkg == "alt" && fi == 0 {
 				q = "yy"
+			} else {
+				delete(m.special, p.idx)
+			}
+		case "imported-only-by-sibling-file":
+			// the qualifier is imported by other files of the package, not by this one: IMPL01
+			if p.ifacePkg == "alt" && !usesPkg(p, "alt") && !usesPkg(p, "ifc") && !usesPkg(p, "impl") {
+				fi = 3
+				q = "altname"
 			} else {
 				delete(m.special, p.idx)
 			}
@@ -743,7 +751,7 @@ func checkC05(replay string) {
 			if sp := m.special[p.idx]; sp != "" {
 				feat = sp
 			}
-			if p.ifacePkg == "alt" && p.file != 1 && m.special[p.idx] == "" && feat == "plain" {
+			if p.ifacePkg == "alt" && p.file == 0 && m.special[p.idx] == "" && feat == "plain" {
 				feat = "pkgname-differs-from-dir"
 			}
 			contract := "value"
